@@ -88,6 +88,13 @@ CHECKS["C16"] = dict(
    note="exhaustive refers to the listed families (about 2^32 of the 2^64 bit patterns in thorough); values outside them are not covered.",
    design="5/C16")
 
+CHECKS["C15"] = dict(
+   level="fault_enumeration",
+   technique="exhaustive fault-position enumeration: harness-owned io.Reader / io.Writer / database/sql driver failing at every byte offset, Write call or driver call of the fault-free trace",
+   text="For ReadCSV/ReadJSON a reader failing at every byte offset 0..L (L = error instead of EOF) with 0-2 bytes delivered together with the error and six read fragmentations; for ToCSV/ToJSON a writer failing at every Write call and short-writing at every byte offset (incl. an output larger than encoding/csv's buffer); for ReadSQL/ToSQL an in-memory driver failing at Prepare, Query, every Rows.Next (incl. instead of EOF) and every Exec. Whenever the injected fault was actually returned to the code under test the call must report an error, an error-free result must be the complete fault-free result, and nothing may panic.",
+   note="Faults are permanent from their position on. One exemption: ReadJSON need not report an error that arrives together with the last bytes of a complete document. Commit is not exercised (qframe never calls it).",
+   design="5/C15")
+
 NOT_YET = {}
 BASELINE_CMD = "for m in $(cat /w/out/gomods.txt); do MF=$(cd /repo/$m && . /w/out/goenv.sh && gomodflag); (cd /repo/$m && go test $MF -json -vet=off -count=1 -timeout 25m ./...); done"
 
